@@ -6,7 +6,8 @@ From Coq Require Import String List Arith NArith ZArith Bool Lia Permutation.
 From J5V.lib Require Import Outcome.
 From J5V.model Require Import ReflectDesc ReflectSchema Reflect ExportForm Export ExportApi.
 From J5V.proofs Require Import ReflectProofs ExportProofs ReflectInvProofs ReflectOwnProofs ReflectWeakProofs.
-From J5V.model Require Import ReflectOwn.
+From J5V.model Require Import ReflectOwn ReflectNames.
+From J5V.proofs Require ReflectNamesProofs.
 Import ListNotations.
 Local Open Scope bool_scope.
 
@@ -281,7 +282,8 @@ Proof.
   intros H. unfold api_from_image, api_of_set_from in H.
   destruct (add_structure W (api_init W) svcs) as [apiS|c] eqn:Es; cbn [lift obind] in H; [|discriminate].
   pose proof (add_structure_buckets W svcs _ _ (api_init_buckets W) Es) as HbS.
-  destruct (o_reflect D fs) as [[S ow]| | |] eqn:HO; cbn [omap obind fst] in H; try discriminate.
+  destruct (ReflectNames.o_reflect_checked D fs) as [[S ow]| | |] eqn:HC; cbn [omap obind fst] in H; try discriminate.
+  pose proof (ReflectNamesProofs.o_reflect_checked_ok D fs (S, ow) HC) as HO.
   pose proof (o_reflect_ok D fs S ow HO) as HS.
   destruct (reflect_entries_ok_any D fs S HS) as (E2 & HndL & HimpL & HclL).
   rewrite E2 in H. cbn [obind] in H.
@@ -296,10 +298,11 @@ Qed.
    followed by at most one more part *)
 Theorem api_from_image_ok D svcs W fs S ow apiS :
   add_structure W (api_init W) svcs = ROk apiS ->
-  o_reflect D fs = Ok (S, ow) -> packages_split S -> exists api, api_from_image D svcs W fs = Ok api.
+  ReflectNames.o_reflect_checked D fs = Ok (S, ow) -> packages_split S -> exists api, api_from_image D svcs W fs = Ok api.
 Proof.
-  intros Hst HO Hsp. pose proof (o_reflect_ok D fs S ow HO) as HS.
-  unfold api_from_image, api_of_set_from. rewrite Hst. cbn [lift obind]. rewrite HO. cbn [omap obind fst].
+  intros Hst HC Hsp. pose proof (ReflectNamesProofs.o_reflect_checked_ok D fs (S, ow) HC) as HO.
+  pose proof (o_reflect_ok D fs S ow HO) as HS.
+  unfold api_from_image, api_of_set_from. rewrite Hst. cbn [lift obind]. rewrite HC. cbn [omap obind fst].
   destruct (reflect_entries_ok_any D fs S HS) as (E2 & _). rewrite E2. cbn [obind].
   destruct (route_all_ok (export_entries (linked_entries S)) apiS) as (api & Ha).
   - intros k x Hin. unfold export_entries in Hin. apply in_map_iff in Hin as ([k0 r0] & Hf & H0). cbn [fst snd] in Hf.
